@@ -75,7 +75,14 @@ type c06Scope struct {
 	canPanic bool
 	hasValue bool // function returns a value
 	skipped  []string
+	// inlining of a same-package helper (one level): its identifiers get a suffix in the Lean
+	// text so that they cannot capture the caller's, and `return e` continues the caller
+	suffix   string
+	onReturn func(val string, ty c06GoType, ind string) (string, error)
 }
+
+// lean is the Lean spelling of a Go local of this scope.
+func (sc *c06Scope) lean(name string) string { return name + sc.suffix }
 
 // c06AliasSpec maps a Go selector expression (as rendered) to a scalar Lean parameter.
 type c06AliasSpec struct {
@@ -234,7 +241,7 @@ func (t *c06Translator) expr(e ast.Expr, sc *c06Scope) (string, c06GoType, error
 			return x.Name, "bool", nil
 		}
 		if ty, ok := sc.vars[x.Name]; ok {
-			return x.Name, ty, nil
+			return sc.lean(x.Name), ty, nil
 		}
 		return "", "", t.errf(e, "unknown identifier %s", x.Name)
 	case *ast.SelectorExpr:
@@ -256,7 +263,7 @@ func (t *c06Translator) expr(e ast.Expr, sc *c06Scope) (string, c06GoType, error
 			if !ok || !c06IsIntType(ft) {
 				return "", "", t.errf(e, "field %s.%s is not an integer field", vt, x.Sel.Name)
 			}
-			return id.Name + "." + x.Sel.Name, ft, nil
+			return sc.lean(id.Name) + "." + x.Sel.Name, ft, nil
 		}
 		if inner, ok := x.X.(*ast.SelectorExpr); ok {
 			if id, ok := inner.X.(*ast.Ident); ok {
@@ -269,7 +276,7 @@ func (t *c06Translator) expr(e ast.Expr, sc *c06Scope) (string, c06GoType, error
 							pi := t.structs[string(pt)[1:]]
 							if pi != nil {
 								if ft, ok := pi.fields[x.Sel.Name]; ok && c06IsIntType(ft) {
-									return id.Name + "." + inner.Sel.Name + "_" + x.Sel.Name, ft, nil
+									return sc.lean(id.Name) + "." + inner.Sel.Name + "_" + x.Sel.Name, ft, nil
 								}
 							}
 						}
@@ -295,7 +302,7 @@ func (t *c06Translator) expr(e ast.Expr, sc *c06Scope) (string, c06GoType, error
 			if id, ok := sel.X.(*ast.Ident); ok {
 				if vt, ok := sc.vars[id.Name]; ok && strings.HasPrefix(string(vt), "*") {
 					if sig := t.fns[string(vt)[1:]+"."+sel.Sel.Name]; sig != nil && sig.pure {
-						return "(" + sig.leanName + " " + id.Name + ")", sig.result, nil
+						return "(" + sig.leanName + " " + sc.lean(id.Name) + ")", sig.result, nil
 					}
 				}
 			}
@@ -335,7 +342,7 @@ func (t *c06Translator) expr(e ast.Expr, sc *c06Scope) (string, c06GoType, error
 					if vt, ok := sc.vars[v.Name]; ok && strings.HasPrefix(string(vt), "*") {
 						si := t.structs[string(vt)[1:]]
 						if si != nil && strings.HasPrefix(string(si.fields[sel.Sel.Name]), "*") {
-							s := v.Name + "." + sel.Sel.Name + "_nonnil"
+							s := sc.lean(v.Name) + "." + sel.Sel.Name + "_nonnil"
 							if x.Op == token.EQL {
 								s = "(!" + s + ")"
 							}
@@ -468,7 +475,7 @@ func (t *c06Translator) assign(lhs ast.Expr, rhs string, rty c06GoType, define b
 				rty = "int"
 			}
 			sc.vars[l.Name] = rty
-			return "let " + l.Name + " : Int := " + rhs, nil
+			return "let " + sc.lean(l.Name) + " : Int := " + rhs, nil
 		}
 		ty, ok := sc.vars[l.Name]
 		if !ok {
@@ -477,7 +484,7 @@ func (t *c06Translator) assign(lhs ast.Expr, rhs string, rty c06GoType, define b
 		if rty != "untyped" && rty != ty {
 			return "", t.errf(lhs, "assignment of %s to %s", rty, ty)
 		}
-		return "let " + l.Name + " : Int := " + rhs, nil
+		return "let " + sc.lean(l.Name) + " : Int := " + rhs, nil
 	case *ast.SelectorExpr:
 		key := c06Render(t.c.fset, l)
 		if a, ok := sc.alias[key]; ok {
@@ -513,14 +520,25 @@ func (t *c06Translator) stmts(list []ast.Stmt, sc *c06Scope, ind string) (string
 	switch x := s.(type) {
 	case *ast.ReturnStmt:
 		if len(x.Results) == 0 {
+			if sc.onReturn != nil {
+				return "", t.errf(s, "inlined helper returns no value")
+			}
 			return ind + sc.result(""), nil
 		}
 		if len(x.Results) != 1 {
 			return "", t.errf(s, "multiple return values")
 		}
-		v, _, err := t.expr(x.Results[0], sc)
+		if call, fd := t.helperCall(x.Results[0], sc); fd != nil {
+			// return helper(args)  ==  tmp := helper(args); return tmp
+			tmp := &ast.Ident{Name: "ret_inl"}
+			return t.inline(call, fd, tmp, true, []ast.Stmt{&ast.ReturnStmt{Results: []ast.Expr{tmp}}}, sc, ind)
+		}
+		v, vty, err := t.expr(x.Results[0], sc)
 		if err != nil {
 			return "", err
+		}
+		if sc.onReturn != nil {
+			return sc.onReturn(v, vty, ind)
 		}
 		return ind + sc.result(v), nil
 	case *ast.ExprStmt:
@@ -580,6 +598,9 @@ func (t *c06Translator) stmts(list []ast.Stmt, sc *c06Scope, ind string) (string
 		if len(x.Lhs) != 1 || len(x.Rhs) != 1 {
 			return "", t.errf(s, "multi-assignment")
 		}
+		if call, fd := t.helperCall(x.Rhs[0], sc); fd != nil && (x.Tok == token.DEFINE || x.Tok == token.ASSIGN) {
+			return t.inline(call, fd, x.Lhs[0], x.Tok == token.DEFINE, rest, sc, ind)
+		}
 		r, rty, err := t.expr(x.Rhs[0], sc)
 		if err != nil {
 			return "", err
@@ -619,9 +640,6 @@ func (t *c06Translator) stmts(list []ast.Stmt, sc *c06Scope, ind string) (string
 		}
 		return ind + a + "\n" + k, nil
 	case *ast.IfStmt:
-		if x.Else != nil {
-			return "", t.errf(s, "if with else")
-		}
 		if x.Init != nil {
 			// `if v := e; cond { … }` == `{ v := e; if cond { … } }` followed by the rest, where v
 			// must not shadow anything the rest can see.
@@ -661,13 +679,171 @@ func (t *c06Translator) stmts(list []ast.Stmt, sc *c06Scope, ind string) (string
 			return "", err
 		}
 		sc.skipped = inner.skipped
-		el, err := t.stmts(rest, sc, ind+"  ")
+		// else / else-if: the else branch runs instead of falling through
+		elseList := rest
+		elseScope := sc
+		if x.Else != nil {
+			var body []ast.Stmt
+			switch e := x.Else.(type) {
+			case *ast.BlockStmt:
+				body = e.List
+			case *ast.IfStmt:
+				body = []ast.Stmt{e}
+			default:
+				return "", t.errf(s, "unsupported else")
+			}
+			elseList = append([]ast.Stmt{}, body...)
+			if !c06Terminates(body) {
+				elseList = append(elseList, rest...)
+			}
+			elseScope = sc.clone()
+		}
+		el, err := t.stmts(elseList, elseScope, ind+"  ")
 		if err != nil {
 			return "", err
 		}
 		return ind + "if " + c + " then\n" + th + "\n" + ind + "else\n" + el, nil
 	}
+	if sw, ok := s.(*ast.SwitchStmt); ok {
+		chain, err := t.switchToIf(sw)
+		if err != nil {
+			return "", err
+		}
+		if chain == nil {
+			return t.stmts(rest, sc, ind)
+		}
+		return t.stmts(append([]ast.Stmt{chain}, rest...), sc, ind)
+	}
 	return "", t.errf(s, "unsupported statement %T", s)
+}
+
+// switchToIf rewrites `switch [tag] { case …: … default: … }` (no init, no fallthrough, no break)
+// into the equivalent if / else-if chain.
+func (t *c06Translator) switchToIf(sw *ast.SwitchStmt) (ast.Stmt, error) {
+	if sw.Init != nil {
+		return nil, t.errf(sw, "switch with init")
+	}
+	var clauses []*ast.CaseClause
+	var def *ast.CaseClause
+	for _, c := range sw.Body.List {
+		cc := c.(*ast.CaseClause)
+		bad := false
+		ast.Inspect(cc, func(n ast.Node) bool {
+			if b, ok := n.(*ast.BranchStmt); ok && (b.Tok == token.FALLTHROUGH || b.Tok == token.BREAK) {
+				bad = true
+			}
+			return true
+		})
+		if bad {
+			return nil, t.errf(cc, "switch with break/fallthrough")
+		}
+		if cc.List == nil {
+			def = cc
+		} else {
+			clauses = append(clauses, cc)
+		}
+	}
+	var tail ast.Stmt
+	if def != nil {
+		tail = &ast.BlockStmt{List: def.Body}
+	}
+	for i := len(clauses) - 1; i >= 0; i-- {
+		cc := clauses[i]
+		var cond ast.Expr
+		for _, v := range cc.List {
+			var one ast.Expr = v
+			if sw.Tag != nil {
+				one = &ast.BinaryExpr{X: sw.Tag, Op: token.EQL, Y: v}
+			}
+			if cond == nil {
+				cond = one
+			} else {
+				cond = &ast.BinaryExpr{X: cond, Op: token.LOR, Y: one}
+			}
+		}
+		ifs := &ast.IfStmt{If: cc.Pos(), Cond: cond, Body: &ast.BlockStmt{List: cc.Body}}
+		if tail != nil {
+			ifs.Else = tail
+		}
+		tail = ifs
+	}
+	if b, ok := tail.(*ast.BlockStmt); ok { // only a default clause
+		return &ast.IfStmt{If: sw.Pos(), Cond: &ast.Ident{Name: "true"}, Body: b}, nil
+	}
+	return tail, nil
+}
+
+// helperCall recognises a call of a plain function of the same package (not a conversion, not a
+// method) whose body can be inlined; nil otherwise. One level deep only.
+func (t *c06Translator) helperCall(e ast.Expr, sc *c06Scope) (*ast.CallExpr, *ast.FuncDecl) {
+	call, ok := e.(*ast.CallExpr)
+	if !ok || sc.onReturn != nil {
+		return nil, nil
+	}
+	id, ok := call.Fun.(*ast.Ident)
+	if !ok || c06WrapFn(c06GoType(id.Name)) != "" || id.Name == "panic" || id.Name == "bool" {
+		return nil, nil
+	}
+	if _, local := sc.vars[id.Name]; local {
+		return nil, nil
+	}
+	fd, err := t.c.funcDecl(t.dir, "", id.Name)
+	if err != nil || fd.Body == nil || fd.Type.Results == nil || len(fd.Type.Results.List) != 1 || len(fd.Type.Results.List[0].Names) > 1 {
+		return nil, nil
+	}
+	return call, fd
+}
+
+// inline translates `lhs (:)= helper(args); rest` by binding the helper's parameters, running
+// its body in a scope of its own (suffixed names) and continuing with `rest` at every return.
+func (t *c06Translator) inline(call *ast.CallExpr, fd *ast.FuncDecl, lhs ast.Expr, define bool, rest []ast.Stmt, sc *c06Scope, ind string) (string, error) {
+	if c06BodyPanics(fd.Body) && !sc.canPanic {
+		return "", t.errf(call, "helper %s can panic but its caller cannot", fd.Name.Name)
+	}
+	hs := &c06Scope{vars: map[string]c06GoType{}, consts: map[string]int64{}, alias: map[string]c06AliasVar{}, skip: map[string]bool{},
+		mut: nil, canPanic: sc.canPanic, hasValue: true, suffix: "_" + fd.Name.Name}
+	var binds []string
+	i := 0
+	for _, f := range fd.Type.Params.List {
+		ty := c06GoType(c06Render(t.c.fset, f.Type))
+		if c06WrapFn(ty) == "" && ty != "bool" {
+			return "", t.errf(call, "helper %s has a parameter of unsupported type %s", fd.Name.Name, ty)
+		}
+		for _, n := range f.Names {
+			if i >= len(call.Args) {
+				return "", t.errf(call, "argument count")
+			}
+			a, aty, err := t.expr(call.Args[i], sc)
+			if err != nil {
+				return "", err
+			}
+			if aty != "untyped" && aty != ty {
+				return "", t.errf(call, "argument %d of %s has type %s, want %s", i, fd.Name.Name, aty, ty)
+			}
+			hs.vars[n.Name] = ty
+			binds = append(binds, ind+"let "+hs.lean(n.Name)+" : Int := "+a)
+			i++
+		}
+	}
+	if i != len(call.Args) {
+		return "", t.errf(call, "argument count")
+	}
+	hs.onReturn = func(val string, ty c06GoType, ind2 string) (string, error) {
+		a, err := t.assign(lhs, val, ty, define, sc)
+		if err != nil {
+			return "", err
+		}
+		k, err := t.stmts(rest, sc, ind2)
+		if err != nil {
+			return "", err
+		}
+		return ind2 + a + "\n" + k, nil
+	}
+	body, err := t.stmts(fd.Body.List, hs, ind)
+	if err != nil {
+		return "", fmt.Errorf("inlining %s: %v", fd.Name.Name, err)
+	}
+	return strings.Join(append(binds, body), "\n"), nil
 }
 
 func (sc *c06Scope) clone() *c06Scope {
